@@ -62,6 +62,8 @@ pub(crate) fn append_entry_best_effort_v1(path: &Path, entry: &CompactionCheckpo
     let Ok(file) = OpenOptions::new().create(true).append(true).open(path) else {
         return;
     };
+    #[cfg(rip_verif)]
+    rip_kernel::verif::point("compidx.opened");
     let mut writer = BufWriter::new(file);
     let Ok(line) = serde_json::to_string(entry) else {
         return;
@@ -69,6 +71,8 @@ pub(crate) fn append_entry_best_effort_v1(path: &Path, entry: &CompactionCheckpo
     let _ = writer.write_all(line.as_bytes());
     let _ = writer.write_all(b"\n");
     let _ = writer.flush();
+    #[cfg(rip_verif)]
+    rip_kernel::verif::point("compidx.flushed");
 }
 
 /// Returns `Ok(None)` when the index file doesn't exist.
